@@ -596,7 +596,15 @@ impl BoundsAnalyzer {
             return;
         }
         let current = self.bounds_of(exp);
-        let Some(required) = current.intersection(required, self.tolerance) else {
+        // `requested` is what the caller asks for; `required` adds what is
+        // already known about this node. Sums, differences and scalings pass
+        // `requested` on: the known bounds of a sum are rounded to nearest, so
+        // subtracting an operand from them again loses the other operand's
+        // range when the two differ by many orders of magnitude
+        // (`abs{1e-12 * x} + 1e6 <= 1000001` pinned x to 0). Every operand
+        // intersects with its own bounds anyway, so nothing is lost.
+        let requested = required;
+        let Some(required) = current.intersection(requested, self.tolerance) else {
             self.detected_infeasible = true;
             return;
         };
@@ -648,37 +656,37 @@ impl BoundsAnalyzer {
                 BinOp::Add => {
                     let lhs_bounds = self.bounds_of(lhs);
                     let rhs_bounds = self.bounds_of(rhs);
-                    self.tighten_expression(lhs, required.sub(rhs_bounds), changed);
-                    self.tighten_expression(rhs, required.sub(lhs_bounds), changed);
+                    self.tighten_expression(lhs, requested.sub(rhs_bounds), changed);
+                    self.tighten_expression(rhs, requested.sub(lhs_bounds), changed);
                 }
                 BinOp::Sub => {
                     let lhs_bounds = self.bounds_of(lhs);
                     let rhs_bounds = self.bounds_of(rhs);
-                    self.tighten_expression(lhs, required.add(rhs_bounds), changed);
-                    self.tighten_expression(rhs, lhs_bounds.sub(required), changed);
+                    self.tighten_expression(lhs, requested.add(rhs_bounds), changed);
+                    self.tighten_expression(rhs, lhs_bounds.sub(requested), changed);
                 }
                 BinOp::Mul => {
                     if let Exp::Number(coefficient) = &**lhs {
                         if *coefficient != 0.0 {
-                            self.tighten_expression(rhs, required.div_by(*coefficient), changed);
+                            self.tighten_expression(rhs, requested.div_by(*coefficient), changed);
                         }
                     } else if let Exp::Number(coefficient) = &**rhs
                         && *coefficient != 0.0
                     {
-                        self.tighten_expression(lhs, required.div_by(*coefficient), changed);
+                        self.tighten_expression(lhs, requested.div_by(*coefficient), changed);
                     }
                 }
                 BinOp::Div => {
                     if let Exp::Number(divisor) = &**rhs
                         && *divisor != 0.0
                     {
-                        self.tighten_expression(lhs, required.scale(*divisor), changed);
+                        self.tighten_expression(lhs, requested.scale(*divisor), changed);
                     }
                 }
                 BinOp::And | BinOp::Or | BinOp::Xor | BinOp::Implies | BinOp::Iff => {}
             },
             Exp::UnOp(op, inner) => match op {
-                UnOp::Neg => self.tighten_expression(inner, required.neg(), changed),
+                UnOp::Neg => self.tighten_expression(inner, requested.neg(), changed),
                 UnOp::Not => {}
             },
         }
